@@ -323,6 +323,8 @@ Record mst := mkM {
   m_written : option sx;          (* content of the latest completed state write *)
   m_prev_p : sx;
   m_last_sched : N;
+  m_armed : bool;                 (* an interval timer has fired and its sync has not started yet *)
+  m_cancelled : bool;             (* the context has been cancelled: the final sync is exempt *)
   m_viol : list Z
 }.
 
@@ -402,8 +404,14 @@ Definition mon_step (interval : N) (m : mst) (op o : sx) : mst :=
   (* --- clause 2: minimum interval between schedule times --- *)
   let fired := Z.eqb code 8 && hit && Z.eqb (sx_Z (sx_nth op 1)) 1
                && Z.eqb (tag (m_prev_p m)) 2 && Z.eqb (sx_Z (sx_nth (m_prev_p m) 2)) 0 in
-  let v2 := if fired && (now <? m_last_sched m + interval)%N then [2] else [] in
-  let last_sched := if fired then now else m_last_sched m in
+  (* a DataSyncer call that starts a new series (not a retry) while the store is
+     running, with no interval timer having fired for it, is itself a schedule time *)
+  let cancelled := m_cancelled m || Z.eqb code 9 in
+  let started := new_sync && negb retry && negb cancelled in
+  let unarmed := started && negb (fired || m_armed m) in
+  let v2 := if (fired || unarmed) && (now <? m_last_sched m + interval)%N then [2] else [] in
+  let last_sched := if fired || unarmed then now else m_last_sched m in
+  let armed := (fired || m_armed m) && negb new_sync in
   (* --- clause 1 / 5: stalls --- *)
   let r_waits := Z.eqb (tag r) 0 || (Z.eqb (tag r) 5 && negb (is_write p)) in
   let v1 := if (length released <? length popped)%nat && r_waits then [1] else [] in
@@ -411,7 +419,7 @@ Definition mon_step (interval : N) (m : mst) (op o : sx) : mst :=
                                      negb (match written with Some c => covers c k | None => false end)) acks in
   let p_waits := Z.eqb (tag p) 0 || Z.eqb (tag p) 4 || (Z.eqb (tag p) 5 && negb (is_write r)) in
   let v5 := if uncovered && p_waits then [5] else [] in
-  mkM (S i) now blocks popped upl acks nsy series_start retry last_ok nwr cur written p last_sched
+  mkM (S i) now blocks popped upl acks nsy series_start retry last_ok nwr cur written p last_sched armed cancelled
       (m_viol m ++ v46 ++ v2 ++ v1 ++ v5).
 
 Fixpoint restored_locs (inits : list (bstate * bool)) : list Z :=
@@ -441,7 +449,7 @@ Definition mon07 (inp obs : sx) : list Z :=
     let c := sx_nth inp 0 in
     let inits := map dec_init (sx_list (sx_nth c 4)) in
     let t0 := sx_N (sx_nth c 2) in
-    let m0 := mkM 0 t0 (restored_locs inits) [] [] [] 0 0 false None 0 None None (L []) t0 [] in
+    let m0 := mkM 0 t0 (restored_locs inits) [] [] [] 0 0 false None 0 None None (L []) t0 false false [] in
     let m := mon_run (sx_N (sx_nth c 0)) m0 (sx_list (sx_nth inp 1)) (sx_list obs) in
     dedupz (m_viol m).
 
